@@ -244,6 +244,33 @@ func propRegistry() map[string]PropSpec {
 	})
 
 	add(PropSpec{
+		ID: "C14",
+		Harnesses: []HarnessSpec{
+			{Pkg: "location", Fn: "Harness_C14_match", Init: []string{"util", "location"}, Reach: []string{"C14.match.end"}},
+			{Pkg: "location", Fn: "Harness_C14_select", Init: []string{"util", "location"}, Reach: []string{"C14.select.none", "C14.select.some"}},
+		},
+		Explanation: "Symbolic execution of the real (*Location).Match/getPriority and (*Locations).Set/Get (incl. the less closure handed to sort.Slice). Match: one location with 0-2 hosts and 0-2 prefixes, request host and URI, all arbitrary byte strings up to 2-3 bytes, against the oracle 'host list empty or contains the host exactly, prefix list empty or some prefix is a prefix of the URI'. Selection: three locations over a small universe (name, host constraint, prefix constraint) in every configuration order, the server's own location list, and the request: the result is nil iff nothing matches, otherwise an own matching location of the most specific class.",
+		Assumptions: []string{"sort.Slice is modelled as an insertion sort driven by the real less closure (one order consistent with less; ties are covered by enumerating all configuration orders)", "string lengths: hosts/prefixes <= 2 bytes, request host/URI <= 3 bytes; selection over the universe {a,b} x {no host, h1} x {no prefix, /a}", "the 5xx answer and 'no upstream contacted' for an unmatched request is NewProxy's part (C15)"},
+		Encoded:     []string{"location.(*Location).Match", "location.(*Location).getPriority", "location.(*Locations).Set", "location.(*Locations).Get", "location.(*Locations).GetLocations", "location.NewLocations"},
+		Bounds:      map[string]string{"match": "strings <= 2-3 bytes symbolic", "select": "3 locations, 6144 configurations x requests"},
+	})
+
+	add(PropSpec{
+		ID: "C17",
+		Harnesses: []HarnessSpec{
+			{Pkg: "config", Fn: "Harness_C17_validate", Init: []string{"util", "config"}, Reach: []string{"C17.accepted", "C17.rejected"}},
+		},
+		Explanation: "Partial: symbolic execution of the real (*PikeConfig).Validate cross-reference loops on configurations with 1-2 upstreams, 1-2 locations, 0-1 caches, 0-1 compress profiles and a server with 0-2 location names, every name a symbolic letter (so dangling, duplicate and unset references all occur). Accepted => every location names an existing upstream and the server names existing locations, cache and compress profile; every closed, well-formed configuration is accepted. The reflection-driven struct validator is a stub whose contract (required / gt=0 / dive) is read from the struct tags of the current config.go at run time.",
+		Assumptions: []string{
+			"go-playground/validator implements its documented tags; only required, gt=0 and dive are modelled, string well-formedness tags (xName, xDuration, url, hostname, ...) are library predicates outside the claim",
+			"'saving then reading returns the same configuration' and YAML quoting (gopkg.in/yaml.v2, reflection-driven) are outside the claim",
+			"that an accepted configuration resolves at run time is the registries' part (C16) and NewProxy's look-ups (C15)",
+		},
+		Encoded: []string{"config.(*PikeConfig).Validate"},
+		Bounds:  map[string]string{"configuration": "<=2 upstreams, <=2 locations, <=1 cache, <=1 compress profile, 1 server with <=2 location names; names are symbolic letters a..c or unset"},
+	})
+
+	add(PropSpec{
 		ID: "C18",
 		Harnesses: []HarnessSpec{
 			{Pkg: "cache", Fn: "Harness_C18_purge", Init: initCache, Reach: []string{"C18.named", "C18.unnamed", "C18.absent-cache", "C18.absent-key"}},
